@@ -21,7 +21,7 @@ EXPLANATION = (
     "decided under C01/C06."
 )
 # obligations added during the build phase (seeding rounds, twins, mutation analysis)
-ADDED_IN_BUILD = ' Also: three scenarios per scorer (ndarray of unknown shape and dtype; any array-like container; (k, width) integer array); no cast of the cuts to an integer dtype before their own dtype was tested (cast-before-dtype-check); signed-differences - the spacing test is decided on differences of a signed type (a signed cast before np.diff / before the test, or a signed-integer dtype test): unsigned cuts cannot wrap around (finding F-24); rank-of-argument - on every path to the kernel the facts about the rank of the argument as given exclude more than two dimensions.'
+ADDED_IN_BUILD = ' Also: three scenarios per scorer (ndarray of unknown shape and dtype; any array-like container; (k, width) integer array); no cast of the cuts to an integer dtype before their own dtype was tested (cast-before-dtype-check); signed-differences - the spacing test is decided on differences of a signed type (a signed cast before np.diff / before the test, or a signed-integer dtype test): unsigned cuts cannot wrap around (finding F-24); rank-of-argument - on every path to the kernel the facts about the rank of the argument as given exclude more than two dimensions. min-size-value: the required spacing of each directly implemented scorer equals the reference table (1, 2, p + 1, 1, 1), fitted on (n, p) data and on a 1-D series (p = 1). dtype-exact (F-26): the dtype test that admits cuts excludes timedelta64 (dtype.kind in \'iu\', or the hierarchy test with an explicit exclusion).'
 EXPLANATION = EXPLANATION + ADDED_IN_BUILD
 
 ASSUMPTIONS = [
@@ -313,9 +313,32 @@ def check_scorer(ctx, pkg, name, width, inner, mode):
                 return not v
             return None
 
-        fired = [p for p in paths if any(dtype_fact(c, v) is False for c, v in both_polarities(p.facts))]
+        def dtype_rejects(p):
+            """the guard that holds the dtype test fired: the test itself said 'not integer', or a disjunction that has
+            'not integer' among its alternatives came out true (`if not is_int or is_timedelta: raise`)"""
+            from .common import flatten
+
+            for c, v in both_polarities(p.facts):
+                if dtype_fact(c, v) is False:
+                    return True
+                if c.t[0] == "or" and v is True and any(dtype_fact(q, True) is False for q in flatten(c, "or")):
+                    return True
+            return False
+
+        fired = [p for p in paths if dtype_rejects(p)]
         ok = bool(fired) and all(p.outcome == "raise" and p.exc.exc_name == "ValueError" for p in fired) and all(any(dtype_fact(c, v) is True for c, v in both_polarities(p.facts)) for p in reach)
         ctx.check(ok, "C13.c CHECK-COMPLETE", f"{name}|{mode}|dtype" if mode != "shape-unknown" else f"{name}|dtype", raise_loc(fired[0], loc) if fired else loc, "non-integer cuts are rejected with ValueError on every path to the kernel", found=f"{len(fired)} rejecting paths")
+        # ... and the test that admits them is exact: numpy files timedelta64 under np.integer, so np.issubdtype(dtype,
+        # np.integer) alone lets an array of durations through (F-26); the kind test `dtype.kind in "iu"` does not, nor does
+        # the hierarchy test together with an explicit exclusion of timedelta64
+        def exact_int(p):
+            fs = [(c, v) for c, v in both_polarities(p.facts)]
+            by_kind = any(dtype_fact(c, v) is True and "[kind:" in c.key for c, v in fs)
+            no_td = any(c.t[0] == "opq" and "issubdtype" in c.key and "timedelta64" in c.key and v is False for c, v in fs)
+            return by_kind or no_td
+
+        inexact = [p for p in reach if not exact_int(p)]
+        ctx.check(not inexact and bool(reach), "C13.c CHECK-COMPLETE", f"{name}|{mode}|dtype-exact", raise_loc(fired[0], loc) if fired else loc, "the dtype test that admits the cuts admits plain integers only (timedelta64 is a subtype of np.integer in numpy's hierarchy: cuts given as durations must be rejected, not scored)", found=("np.issubdtype(cuts.dtype, np.integer) alone" if inexact else "dtype.kind in 'iu' (or the hierarchy test with timedelta64 excluded)"), expected="cuts.dtype.kind in 'iu'")
         # the dtype that is tested is the caller's: no conversion to an integer type (which truncates fractions silently)
         # happens before the test has been passed
         ckey = Atom("sym", "cuts").key
